@@ -365,11 +365,12 @@ Definition conv_lit_arg (e : expr) : option ty :=
 
 Definition ann_arg (e : expr) : option N := match e with EStr i => Some i | _ => None end.
 
-Fixpoint mapM {A B} (f : A -> option B) (l : list A) : option (list B) :=
-  match l with
-  | [] => Some []
-  | x :: r => match f x, mapM f r with Some y, Some ys => Some (y :: ys) | _, _ => None end
-  end.
+Definition mapM {A B} (f : A -> option B) : list A -> option (list B) :=
+  fix go (l : list A) : option (list B) :=
+    match l with
+    | [] => Some []
+    | x :: r => match f x, go r with Some y, Some ys => Some (y :: ys) | _, _ => None end
+    end.
 
 (* _AnnotationVisitor + Definitions.new_type/_parameterized_type + pytdgen + ConvertTypingToNative.
    Exact on the image of the printer; parameters that the printer never emits in a position (an ellipsis
@@ -379,14 +380,7 @@ Fixpoint conv (env : penv) (e : expr) : option ty :=
   | EName i => conv_name env i
   | ENone => Some (Named (NP id_NoneType))
   | ESub b args =>
-      let convs := (fix go (es : list expr) : option (list ty) :=
-                      match es with
-                      | [] => Some []
-                      | x :: r => match conv env x, go r with
-                                  | Some y, Some ys => Some (y :: ys)
-                                  | _, _ => None
-                                  end
-                      end) in
+      let convs := mapM (conv env) in
       if (b =? id_Literal)%N then
         match args, mapM conv_lit_arg args with
         | _ :: _, Some ls => Some (join_types ls)
@@ -520,9 +514,10 @@ Fixpoint norm (c : ctx) (t : ty) : ty :=
       else Generic (norm_name b) (map (norm c) ps)
   | TupleT b ps => TupleT (NP id_tuple) (map (norm c) ps)
   | CallableT b ps =>
-      match removelast ps with
-      | [NothingT] => CallableT b [last (map (norm c) ps) AnyT]
-      | _ => CallableT b (map (norm c) ps)
+      let nps := map (norm c) ps in
+      match removelast nps with
+      | [NothingT] => CallableT b [last nps AnyT]           (* pytd_callable's special case *)
+      | _ => CallableT b nps
       end
   | Annot t a => Annot (norm c t) a
   | Union ts => norm_union c (map (fun t => (t, norm c t)) ts)
@@ -622,7 +617,7 @@ Fixpoint stable (c : ctx) (t : ty) : bool :=
   match t with
   | Generic _ ps | TupleT _ ps => forallb (stable c) ps
   | CallableT _ ps =>
-      forallb (stable c) ps && match removelast ps with [NothingT] => false | _ => true end
+      forallb (stable c) ps && match removelast (map (norm c) ps) with [NothingT] => false | _ => true end
   | Annot t _ => stable c t
   | Union ts =>
       forallb (stable c) ts && nodup_by ty_eqb (union_F c (map (fun t => (t, norm c t)) ts))
